@@ -23,13 +23,28 @@ package storage
 // ---- trusted sinks (C15): an I/O callee raises ghost.fail iff it reports an error
 //
 //@ trusted func (WriteBucket) Put(ctx, path, options) (w, err)
-//@   modifies ghost.fail
+//@   modifies ghost.fail, ghost.sinkPaths, ghost.lastPutOptions
 //@   ensures  ghost.fail == (old(ghost.fail) || err != nil)
 //@   ensures  err == nil ==> w != nil
+//@   ensures  ghost.sinkPaths == add(old(ghost.sinkPaths), path)
+//@   ensures  ghost.lastPutOptions == options
 //@ trusted func (ReadBucket) Get(ctx, path) (r, err)
-//@   modifies ghost.fail
+//@   modifies ghost.fail, ghost.sinkPaths
 //@   ensures  ghost.fail == (old(ghost.fail) || err != nil)
 //@   ensures  err == nil ==> r != nil
+//@   ensures  ghost.sinkPaths == add(old(ghost.sinkPaths), path)
+//@ trusted func (ReadBucket) Stat(ctx, path) (r, err)
+//@   modifies ghost.sinkPaths
+//@   ensures  err == nil ==> r != nil
+//@   ensures  ghost.sinkPaths == add(old(ghost.sinkPaths), path)
+//@ trusted func (WriteBucket) Delete(ctx, path) (err)
+//@   modifies ghost.fail, ghost.sinkPaths
+//@   ensures  ghost.fail == (old(ghost.fail) || err != nil)
+//@   ensures  ghost.sinkPaths == add(old(ghost.sinkPaths), path)
+//@ trusted func (WriteBucket) DeleteAll(ctx, prefix) (err)
+//@   modifies ghost.fail, ghost.sinkPaths
+//@   ensures  ghost.fail == (old(ghost.fail) || err != nil)
+//@   ensures  ghost.sinkPaths == add(old(ghost.sinkPaths), prefix)
 //@ trusted func (WriteObject) SetExternalPath(externalPath) (err)
 //@   modifies ghost.fail
 //@   ensures  ghost.fail == (old(ghost.fail) || err != nil)
@@ -47,37 +62,37 @@ package storage
 //
 //@ func copyReadObject
 //@   property C15
-//@   modifies ghost.fail
+//@   modifies ghost.fail, ghost.sinkPaths, ghost.lastPutOptions
 //@   ensures  reported: ghost.fail && !old(ghost.fail) ==> retErr != nil
 //@   canary ensures retErr == nil
 //
 //@ func copyPath
 //@   property C15
-//@   modifies ghost.fail
+//@   modifies ghost.fail, ghost.sinkPaths, ghost.lastPutOptions
 //@   ensures  reported: ghost.fail && !old(ghost.fail) ==> retErr != nil
 //@   canary ensures retErr == nil
 //
 //@ func CopyReader
 //@   property C15
-//@   modifies ghost.fail
+//@   modifies ghost.fail, ghost.sinkPaths, ghost.lastPutOptions
 //@   ensures  reported: ghost.fail && !old(ghost.fail) ==> retErr != nil
 //@   canary ensures retErr == nil
 //
 //@ func CopyReadObject
 //@   property C15
-//@   modifies ghost.fail, heap
+//@   modifies ghost.fail, ghost.sinkPaths, ghost.lastPutOptions, heap
 //@   ensures  reported: ghost.fail && !old(ghost.fail) ==> retErr != nil
 //@   loop 0 invariant ghost.fail ==> old(ghost.fail)
 //
 //@ func CopyPath
 //@   property C15
-//@   modifies ghost.fail, heap
+//@   modifies ghost.fail, ghost.sinkPaths, ghost.lastPutOptions, heap
 //@   ensures  reported: ghost.fail && !old(ghost.fail) ==> err != nil
 //@   loop 0 invariant ghost.fail ==> old(ghost.fail)
 //
 //@ func Copy(ctx, from, to, options) (n, err)
 //@   property C15
-//@   modifies ghost.fail, heap
+//@   modifies ghost.fail, ghost.sinkPaths, ghost.lastPutOptions, heap
 //@   ensures  reported: ghost.fail && !old(ghost.fail) ==> err != nil
 //@   loop 0 invariant ghost.fail ==> old(ghost.fail)
 //
@@ -85,7 +100,7 @@ package storage
 // (closure 0 is the job literal); AllPaths is a read-only walk.
 //@ func copyPaths(ctx, from, to, copyExternalAndLocalPaths, atomicOpt) (n, err)
 //@   property C15
-//@   modifies ghost.fail, heap
+//@   modifies ghost.fail, ghost.sinkPaths, ghost.lastPutOptions, heap
 //@   ensures  reported: ghost.fail && !old(ghost.fail) ==> err != nil
 //@   loop 0 invariant ghost.fail ==> old(ghost.fail)
 //@   closure 0 ensures job-reports: ghost.fail && !old(ghost.fail) ==> err != nil
@@ -94,39 +109,124 @@ package storage
 //
 //@ trusted iterator func (ReadBucket) Walk(ctx, prefix, f) (err)
 //@   yields via f (objectInfo ObjectInfo)
-//@   modifies ghost.fail
+//@   modifies ghost.fail, ghost.sinkPaths
+//@   begins ghost.sinkPaths == add(old(ghost.sinkPaths), prefix) && ghost.fail == old(ghost.fail)
+//@   where objectInfo != nil
 //@   mayfail
 //
 //@ func AllPaths(ctx, readBucket, prefix) (r, err)
 //@   property C15
-//@   modifies ghost.fail
+//@   modifies ghost.fail, ghost.sinkPaths, ghost.lastPutOptions
 //@   ensures  reported: ghost.fail && !old(ghost.fail) ==> err != nil
 //@   closure 0 invariant ghost.fail ==> old(ghost.fail)
 //
 //@ func ReadPath(ctx, readBucket, path) (data, retErr)
 //@   property C15
-//@   modifies ghost.fail
+//@   modifies ghost.fail, ghost.sinkPaths, ghost.lastPutOptions
 //@   ensures  reported: ghost.fail && !old(ghost.fail) ==> retErr != nil
 //@   canary ensures retErr == nil
 //
 //@ func PutPath
 //@   property C15
-//@   modifies ghost.fail
+//@   modifies ghost.fail, ghost.sinkPaths, ghost.lastPutOptions
 //@   ensures  reported: ghost.fail && !old(ghost.fail) ==> retErr != nil
 //@   canary ensures retErr == nil
 //
 //@ func ForReadObject
 //@   property C15
-//@   modifies ghost.fail, heap
+//@   modifies ghost.fail, ghost.sinkPaths, ghost.lastPutOptions, heap
 //@   ensures  reported: ghost.fail && !old(ghost.fail) ==> retErr != nil
 //
 //@ func ForWriteObject
 //@   property C15
-//@   modifies ghost.fail, heap
+//@   modifies ghost.fail, ghost.sinkPaths, ghost.lastPutOptions, heap
 //@   ensures  reported: ghost.fail && !old(ghost.fail) ==> retErr != nil
 //
 //@ func WalkReadObjects(ctx, readBucket, prefix, f) (err)
 //@   property C15
-//@   modifies ghost.fail, heap
+//@   modifies ghost.fail, ghost.sinkPaths, ghost.lastPutOptions, heap
 //@   ensures  reported: ghost.fail && !old(ghost.fail) ==> err != nil
 //@   closure 0 invariant ghost.fail ==> old(ghost.fail)
+//
+// ---- mapper.go / map.go (C13, C14): a mapped view hands its delegate only paths inside the mapper's root
+//
+// Interface contract of Mapper.MapPath, in terms of the abstract root rootOf(m) (/verif/specs/paths.spec).
+// It is discharged for prefixMapper and nopMapper below; chainMapper is not covered.
+//@ trusted pure func (Mapper) MapPath(path) (full, ok)
+//@   ensures ok && validRel(path) && validRel(rootOf(this)) ==> validRel(full) && inside(rootOf(this), full)
+//
+//@ pure func (prefixMapper) MapPath(path) (full, ok)
+//@   property C13 C14
+//@   reveal inside, join2
+//@   ensures ok
+//@   ensures joined: validRel(p.prefix) && validRel(path) ==> full == join2(p.prefix, path)
+//@   ensures confined: validRel(p.prefix) && validRel(path) ==> validRel(full) && inside(p.prefix, full)
+//
+//@ pure func (nopMapper) MapPath(path) (full, ok)
+//@   property C13 C14
+//@   reveal inside
+//@   ensures ok && full == path && inside(".", full)
+//
+//@ func (r *mapReadBucketCloser) getFullPath(op, path) (full, err)
+//@   property C13 C14
+//@   modifies heap
+//@   requires validRel(rootOf(r.mapper))
+//@   ensures confined: err == nil ==> validRel(full) && inside(rootOf(old(r.mapper)), full)
+//@   ensures mapped: err == nil ==> validRel(Normalize(path)) && Normalize(path) != "." && full == old(r.mapper).MapPath(Normalize(path))
+//@   canary ensures err != nil
+//
+//@ func (w *mapWriteBucketCloser) getFullPath(path) (full, err)
+//@   property C13 C14
+//@   modifies heap
+//@   requires validRel(rootOf(w.mapper))
+//@   ensures confined: err == nil ==> validRel(full) && inside(rootOf(old(w.mapper)), full)
+//@   ensures mapped: err == nil ==> validRel(Normalize(path)) && Normalize(path) != "." && full == old(w.mapper).MapPath(Normalize(path))
+//@   canary ensures err != nil
+//
+// Every path handed to the delegate during a call lies inside the mapper's root and is the mapped, validated path.
+//@ func (r *mapReadBucketCloser) Get(ctx, path) (obj, err)
+//@   property C13 C14
+//@   modifies heap, ghost.fail, ghost.sinkPaths
+//@   requires validRel(rootOf(r.mapper))
+//@   ensures confined: forall q string :: q in ghost.sinkPaths && !(q in old(ghost.sinkPaths)) ==> validRel(q) && inside(rootOf(old(r.mapper)), q) && q == old(r.mapper).MapPath(Normalize(path))
+//@   ensures reported {C15}: ghost.fail && !old(ghost.fail) ==> err != nil
+//
+//@ func (r *mapReadBucketCloser) Stat(ctx, path) (obj, err)
+//@   property C13 C14
+//@   modifies heap, ghost.sinkPaths
+//@   requires validRel(rootOf(r.mapper))
+//@   ensures confined: forall q string :: q in ghost.sinkPaths && !(q in old(ghost.sinkPaths)) ==> validRel(q) && inside(rootOf(old(r.mapper)), q) && q == old(r.mapper).MapPath(Normalize(path))
+//
+//@ func (r *mapReadBucketCloser) Walk(ctx, prefix, f) (err)
+//@   property C13 C14
+//@   modifies heap, ghost.fail, ghost.sinkPaths
+//@   requires validRel(rootOf(r.mapper))
+//@   ensures confined: forall q string :: q in ghost.sinkPaths && !(q in old(ghost.sinkPaths)) ==> validRel(q) && inside(rootOf(old(r.mapper)), q) && q == old(r.mapper).MapPath(Normalize(prefix))
+//@   closure 0 invariant forall q string :: q in ghost.sinkPaths && !(q in old(ghost.sinkPaths)) ==> validRel(q) && inside(rootOf(old(r.mapper)), q) && q == old(r.mapper).MapPath(Normalize(prefix))
+//
+//@ func (w *mapWriteBucketCloser) Put(ctx, path, opts) (obj, err)
+//@   property C13 C14 C15
+//@   modifies heap, ghost.fail, ghost.sinkPaths, ghost.lastPutOptions
+//@   requires validRel(rootOf(w.mapper))
+//@   ensures confined: forall q string :: q in ghost.sinkPaths && !(q in old(ghost.sinkPaths)) ==> validRel(q) && inside(rootOf(old(w.mapper)), q) && q == old(w.mapper).MapPath(Normalize(path))
+//@   ensures forwards-options {C15}: err == nil ==> ghost.lastPutOptions == opts
+//@   ensures reported {C15}: ghost.fail && !old(ghost.fail) ==> err != nil
+//
+//@ func (w *mapWriteBucketCloser) Delete(ctx, path) (err)
+//@   property C13 C14
+//@   modifies heap, ghost.fail, ghost.sinkPaths
+//@   requires validRel(rootOf(w.mapper))
+//@   ensures confined: forall q string :: q in ghost.sinkPaths && !(q in old(ghost.sinkPaths)) ==> validRel(q) && inside(rootOf(old(w.mapper)), q) && q == old(w.mapper).MapPath(Normalize(path))
+//@   ensures reported {C15}: ghost.fail && !old(ghost.fail) ==> err != nil
+//
+//@ func (w *mapWriteBucketCloser) DeleteAll(ctx, prefix) (err)
+//@   property C13 C14
+//@   modifies heap, ghost.fail, ghost.sinkPaths
+//@   requires validRel(rootOf(w.mapper))
+//@   ensures confined: forall q string :: q in ghost.sinkPaths && !(q in old(ghost.sinkPaths)) ==> validRel(q) && inside(rootOf(old(w.mapper)), q) && q == old(w.mapper).MapPath(Normalize(prefix))
+//@   ensures reported {C15}: ghost.fail && !old(ghost.fail) ==> err != nil
+//
+//@ trusted func replaceReadObjectCloserPath(readObjectCloser, path) (r)
+//@ trusted func replaceObjectInfoPath(objectInfo, path) (r)
+//@ trusted func replaceWriteObjectCloserExternalAndLocalPathsNotSupported(writeObjectCloser) (r)
+//@   ensures r != nil
